@@ -87,8 +87,72 @@ def run(ctx, replay_case):
                 ctx.violations.append({"kind": "concrete", "signature": f"source:{src}",
                                        "what": f"decoding from a {src} source differs from decoding the same bytes from a counting iterator",
                                        "replay": {**c.replay("S"), "source": src}})
+    # the text front-ends are lazy byte generators too: decoding hex text / an swtpm log from a one-character-at-a-time source, an
+    # event is emitted after pulling no more text than up to the second digit of the look-ahead byte (seed C10f: the hex reader
+    # converted whole runs of digits at once).  The positions of the digits are known from the rendering, not from the reader.
+    def hex_layouts(data):
+        yield "contiguous", data.hex().encode(), [2 * i + 2 for i in range(len(data))]
+        txt, pos = b"", []
+        for i, x in enumerate(data):
+            txt += f"{x:02x}".encode()
+            pos.append(len(txt))
+            txt += b" " if (i + 1) % 4 else b"\n"
+        yield "groups-of-4", txt, pos
+        txt, pos = b"", []
+        for i, x in enumerate(data):
+            txt += b"  " + f"{x:02X}".encode()[:1] + b" " + f"{x:02X}".encode()[1:]
+            pos.append(len(txt))
+            if (i + 1) % 16 == 0:
+                txt += b"\r\n"
+        yield "split-pairs", txt + b"\n\n", pos
+
+    def swtpm_layout(parts):
+        txt = b"Starting vTPM\n SWTPM_NVRAM_Init: directory\n"
+        pos = []
+        for i, m in enumerate(parts):
+            if i % 3 == 1:
+                txt += b" Ctrl Cmd: length 4\n 00 00 00 01 \n Ctrl Rsp: length 4\n 00 00 00 00 \n"
+            txt += (b" SWTPM_IO_Read: length %d\n" if i % 2 == 0 else b" SWTPM_IO_Write: length %d\n") % len(m)
+            for j in range(0, len(m), 16):
+                txt += b" "
+                for x in m[j:j + 16]:
+                    txt += f"{x:02X}".encode()
+                    pos.append(len(txt))
+                    txt += b" "
+                txt += b"\n"
+        return txt, pos
+
+    fops, fmeta = [], []
+    fsample = [c for c in wf if c.data][:: max(1, len(wf) // (60 if ctx.tier == "quick" else 600))]
+    for c in fsample:
+        for name, txt, pos in hex_layouts(c.data):
+            fops.append(("DECFRONT", "S", c.tname, c.cc, c.enc, txt, "hex"))
+            fmeta.append((c, "hex/" + name, txt, pos))
+        if c.tname in ("Command", "Stream"):
+            parts = [c.data[sum(c.meta["parts"][:i]):sum(c.meta["parts"][:i + 1])] for i in range(len(c.meta["parts"]))] if c.tname == "Stream" else [c.data]
+            txt, pos = swtpm_layout(parts)
+            fops.append(("DECFRONT", "S", c.tname, c.cc, c.enc, txt, "swtpm"))
+            fmeta.append((c, "swtpm", txt, pos))
+    fres = core.run_impl(fops)
+    nfront = 0
+    for (c, lay, txt, pos), b in zip(fmeta, fres):
+        evs = ds.events_of(b)
+        if not ds.widths_ok(b, L):
+            continue
+        offs = ds.event_offsets(evs, L)
+        prev = 0
+        for l, off in zip(evs, offs):
+            allowed = pos[off] if off < len(pos) else len(txt)
+            if ds.pulls_of(l) > allowed:
+                nfront += 1
+                if nfront <= 3:
+                    ctx.violations.append({"kind": "concrete", "signature": f"front-lookahead:{lay.split('/')[0]}",
+                                           "what": f"decoding {lay} text from a one-character-at-a-time source: an event was emitted after pulling "
+                                                   f"{ds.pulls_of(l)} characters although the fields emitted so far ({off} bytes) plus one byte of look-ahead end at character {allowed}",
+                                           "replay": {**c.replay("S"), "front_end": lay, "text": txt.decode("latin1")[:400], "event": l}})
+                break
     ctx.stats.update({
-        "evaluations": len(wf) + len(cuts) + len(sample) * len(SOURCES),
+        "evaluations": len(wf) + len(cuts) + len(sample) * len(SOURCES) + len(fops),
         "distinct_nontrivial": len({(c.tname, c.data) for c in cuts if len(c.data) > 0}) + len(wf),
         "rule": "well-formed structures/commands/responses/streams and their prefixes (every cut point of inputs <= 24 bytes, 24 "
                 "sampled cuts otherwise; all in thorough); pull counts from a counting iterator at every event; prefix events "
@@ -97,6 +161,7 @@ def run(ctx, replay_case):
         "correspondence": {"ops": len(cuts) + len(wf)},
         "distribution": {"kinds": ds.kinds_distribution(wf), "cuts": len(cuts), "lookahead_failures": nla,
                          "prefix_failures": npre, "source_failures": nsrc, "sources": SOURCES,
+                         "front_end_lookahead": {"decodes": len(fops), "layouts": dict(collections.Counter(m[1] for m in fmeta)), "failures": nfront},
                          "cut_outcomes": dict(collections.Counter(ds.outcome(b) for b in cimpl))},
     })
 
